@@ -44,10 +44,20 @@ def same_default(a, b):
     return type(a) is type(b) and a == b
 
 
+def norm_typ(typ):
+    """a type string up to its spelling as a Python expression (quote marks of string literals, blanks)"""
+    if not isinstance(typ, str):
+        return typ
+    try:
+        return ast.unparse(ast.parse(typ.strip(), mode="eval"))
+    except (SyntaxError, ValueError):
+        return typ
+
+
 def cmp_param(tag, idx, n, pa, pb, doc=True, typ=True, defaults=True):
     out = []
     base = {"where": tag, "index": idx, "n": n, "tkind": type_kind_of(pa.get("typ")), "dkind": default_kind_of(pa)}
-    if typ and pa.get("typ") != pb.get("typ"):
+    if typ and pa.get("typ") != pb.get("typ") and norm_typ(pa.get("typ")) != norm_typ(pb.get("typ")):
         how = "lost" if pb.get("typ") is None else ("gained" if pa.get("typ") is None else
                                                       "%s->%s" % (type_kind_of(pa.get("typ")), type_kind_of(pb.get("typ"))))
         out.append(dict(base, field="typ", how=how, exp=pa.get("typ"), got=pb.get("typ")))
